@@ -755,7 +755,8 @@ func kindsReaching(d *dispatch, kt types.Type, kinds []enumConst, B *ssa.BasicBl
 		if v, ok := memo[t]; ok {
 			return v
 		}
-		r := t == B || reachableAvoiding(t, B, nil)
+		// (not through the dispatch again: inside a loop the next round dispatches afresh)
+		r := t == B || reachableAvoiding(t, B, map[*ssa.BasicBlock]bool{d.Head: true})
 		memo[t] = r
 		return r
 	}
